@@ -28,7 +28,7 @@ Proof.
   intros I. unfold restart. rewrite (i_latest _ _ _ _ _ I).
   pose proof (i_best _ _ _ _ _ I) as Hb. unfold mainb in Hb. rewrite Hb.
   unfold get_marker. rewrite (i_nomarker _ _ _ _ _ I).
-  exists (mkNode (dur n) (best n) (root (best n)) [] [] 0 [] []).
+  exists (mkNode (dur n) (best n) (root (best n)) [] [] 0 [] [] (root (best n))).
   split; [reflexivity|]. split; [|split; [reflexivity|split; [reflexivity|]]].
   - pose proof I as I0. destruct I0. constructor; simpl; auto. contradiction.
   - simpl. eapply (i_state _ _ _ _ _ I (no (best n))); eauto. lia.
@@ -41,7 +41,7 @@ Definition connect_units (b : block) : list wunit :=
 Lemma connect_main_units n b n' : connect_main apply n b = Some n' ->
   jlog n' = rev (connect_units b) ++ jlog n /\ dur n' = replay (dur n) (connect_units b).
 Proof.
-  unfold connect_main, execute_block. destruct (exec_ok apply (sdb_root n) b); [|discriminate].
+  unfold connect_main, execute_block. destruct (pmem n =? sdb_root n); [|discriminate]. destruct (exec_ok apply (sdb_root n) b); [|discriminate].
   intros H. inversion H; subst; clear H. unfold connect_units, emit_ne, receipts_unit.
   destruct (txs b); simpl; auto.
 Qed.
@@ -61,16 +61,18 @@ Proof.
   (* the intermediate states after the state commit and after the receipts *)
   unfold connect_main in Hc. destruct (execute_block apply n b) as [n1|] eqn:Ex; [|discriminate].
   destruct (execute_block_frame _ _ _ _ Ex) as (Hok & Fb & Fs & Fo & Fbad & Flib & Ff & Fm & Fr).
-  unfold execute_block in Ex. rewrite Hok in Ex. inversion Ex as [En1]; clear Ex.
+  unfold execute_block in Ex. rewrite Hok, (i_params _ _ _ _ _ I), N.eqb_refl in Ex. cbn [andb] in Ex.
+  inversion Ex as [En1]; clear Ex.
   set (na := emit n (state_unit (root b))).
   assert (Ia : Inv na).
   { eapply (inv_frame apply spent U g n); simpl; eauto.
     all: try (intros k0 H1 H2; apply state_unit_frame; auto; fail).
     all: try (intros r Hr; rewrite state_unit_marker, Hr; apply orb_true_r). }
-  assert (I1 : Inv (set_sdb n1 (sdb_root n))).
+  assert (I1 : Inv (set_state n1 (sdb_root n))).
   { eapply (inv_frame apply spent U g n); simpl; eauto.
     all: try (intros r H; rewrite Fm, H; apply orb_true_r).
-    all: try (intros i m H; rewrite Fr, H; apply orb_true_r). }
+    all: try (intros i m H; rewrite Fr, H; apply orb_true_r).
+    all: try (symmetry; apply (i_params _ _ _ _ _ I)). }
   assert (D1 : dur n1 = replay (dur n) ([state_unit (root b)] ++ match txs b with [] => [] | _ => [receipts_unit b] end)).
   { rewrite <- En1. simpl. unfold emit_ne, receipts_unit. destruct (txs b); reflexivity. }
   unfold crash, connect_units.
@@ -88,7 +90,7 @@ Proof.
         destruct (restart_inv f7 n' I') as (r & R1 & R2 & R3 & R4 & R5). exists r. rewrite R3 in *. rewrite Hb' in *. auto.
       * destruct k as [|k].
         -- simpl app. simpl firstn. simpl app in D1. rewrite <- D1.
-           change (dur n1) with (dur (set_sdb n1 (sdb_root n))).
+           change (dur n1) with (dur (set_state n1 (sdb_root n))).
            destruct (restart_inv f7 _ I1) as (r & R1 & R2 & R3 & R4 & R5). exists r. rewrite R3 in *. simpl in *.
            rewrite Fb in *. auto.
         -- simpl app. replace (firstn (S (S (S k))) [state_unit (root b); receipts_unit b; connect_unit b])
@@ -136,11 +138,12 @@ Theorem restart_frame f7 n d' :
             has_state_marker (dur r) (root (best r)) = true.
 Proof.
   intros I (Hf & GB & HU & Hm & Hr).
-  set (n' := mkNode d' (best n) (root (best n)) [] [] 0 [] []).
+  set (n' := mkNode d' (best n) (root (best n)) [] [] 0 [] [] (root (best n))).
   assert (I' : Inv n').
   { eapply (inv_frame2 apply spent U g n n'); simpl; auto.
     - symmetry. apply (i_sdb _ _ _ _ _ I).
-    - contradiction. }
+    - contradiction.
+    - rewrite (i_params _ _ _ _ _ I). symmetry. apply (i_sdb _ _ _ _ _ I). }
   unfold restart.
   assert (E1 : get_latest d' = Some (no (best n))).
   { unfold get_latest. rewrite Hf by (intros; discriminate). apply (i_latest _ _ _ _ _ I). }
